@@ -148,6 +148,7 @@ def _as_container(items, kind):
 def _mkv(pool, op):
     _, name, cname, links, unis = op[:5]
     ckind = op[5] if len(op) > 5 else "list"
+    uid = op[6] if len(op) > 6 else None
     if not pool.has(*links) or not pool.has(*unis) or name in pool.objs:
         return SKIP
     cls = zoo.VERTEX_CLASSES[cname]
@@ -156,6 +157,8 @@ def _mkv(pool, op):
 
     def t():
         kw = {"attributes": {"idx": idx}}
+        if uid is not None:
+            kw["uid"] = uid  # user-assigned uid: nothing makes uids unique
         if links:
             kw["links"] = _as_container(ls, ckind)
         if unis:
